@@ -276,7 +276,8 @@ func ruleR08_7(c *Check) {
 			// end-marker arm: must be after the timestamp comparison (early break on mismatch)
 			okv := false
 			for _, g := range gs {
-				if b, ok := g.Cond.(*ast.BinaryExpr); ok && b.Op == token.NEQ && !g.Val && g.Implicit {
+				// an equality that holds here, however it is spelled (`if a != b { break }` before, or `if a == b { … }` around)
+				if b, ok := g.Cond.(*ast.BinaryExpr); ok && ((b.Op == token.NEQ && !g.Val) || (b.Op == token.EQL && g.Val)) {
 					okv = true // lastCommit != txnTs  is false
 				}
 			}
@@ -285,8 +286,12 @@ func ruleR08_7(c *Check) {
 			// plain entry arm: must be outside a transaction (lastCommit != 0 => break)
 			okv := false
 			for _, g := range gs {
-				if b, ok := g.Cond.(*ast.BinaryExpr); ok && b.Op == token.NEQ && !g.Val && g.Implicit {
+				// an equality that holds here, however it is spelled (`if a != b { break }` before, or `if a == b { … }` around)
+				if b, ok := g.Cond.(*ast.BinaryExpr); ok && ((b.Op == token.NEQ && !g.Val) || (b.Op == token.EQL && g.Val)) {
 					if v, ok := w.constInt(b.Y); ok && v == 0 {
+						okv = true
+					}
+					if v, ok := w.constInt(b.X); ok && v == 0 {
 						okv = true
 					}
 				}
